@@ -4,6 +4,7 @@ import wpt
 import urlcorr
 import urlpreds
 import pathcorr
+import simplecorr
 from lib import hx, unhx
 
 CMP = urlcorr.SPEC_FIELDS
@@ -109,6 +110,8 @@ def check(run):
     # L1: the path builder (trivial / fast / general code paths of helpers::parse_prepared_path, helpers::shorten_path) against
     # its Lean model, which Props/C01 proves equal to the Standard's path state
     pathcorr.explore(run, binp, 6000 if run.tier == "quick" else 120000)
+    # the parser's fast path for normalized absolute http(s) URLs, called directly (Model/SimpleAbs.lean)
+    simplecorr.explore(run, binp, 8000 if run.tier == "quick" else 160000)
     for r in res[-3:]:
         run.sample(urlcorr.describe(r["case"]))
     run.oblige("corr:impl-vs-spec(parse)", True)
